@@ -798,7 +798,7 @@ def run_one(args):
         if kind not in _OV:
             _OV[kind] = overlays(kind)
         rep = analyse(pid, REPO, _OV[kind], "quick")
-        bad = [o.key() for o in rep.violations]
+        bad = [o.key() for o in rep.unlisted()]
         return pid, "violations" if bad else "ok", bad[:6], len(rep.obligations)
     except AnalysisError as e:
         return pid, "analysis-error", [str(e)[:300]], 0
@@ -831,7 +831,7 @@ def run_mutant_under(args):
             finally:
                 _SRC, _SIGS, _REORDER = None, None, None
             rep = analyse(pid, REPO, ov, "quick")
-            bad = [o.key() for o in rep.violations]
+            bad = [o.key() for o in rep.unlisted()]
             if m.get("expect_silent"):
                 return pid, m["id"], "ok" if not bad else "false-alarm", bad[:3]
             return pid, m["id"], "ok" if bad else "missed", bad[:3]
@@ -849,7 +849,7 @@ def run_mutant_under(args):
             else:
                 ov[rel] = transform_module(src, kind)
         rep = analyse(pid, REPO, ov, "quick")
-        bad = [o.key() for o in rep.violations]
+        bad = [o.key() for o in rep.unlisted()]
         if m.get("expect_silent"):
             return pid, m["id"], "ok" if not bad else "false-alarm", bad[:3]
         return pid, m["id"], "ok" if bad else "missed", bad[:3]
